@@ -267,6 +267,8 @@ def main():
     ap.add_argument('--jobs', type=int, default=int(os.environ.get('VERIF_JOBS', '4')))
     ap.add_argument('--no-evidence', action='store_true')
     a = ap.parse_args()
+    if os.environ.get('VERIF_NO_EVIDENCE'):
+        a.no_evidence = True
 
     if a.replay:
         with open(a.replay) as f:
